@@ -153,10 +153,10 @@ where
                                 }
                             }
 
-                            // Step 2: Share work.
-                            if pending.len() > 1 && thread_count > 1 {
-                                job_broker.split_and_push(&mut pending);
-                            }
+                            // Step 2: Share work. Called on every round, even with a single
+                            // thread or a single pending job: this is also where a busy worker
+                            // learns that the market was closed (timeout, another worker done).
+                            job_broker.split_and_push(&mut pending);
                         }
                     })
                     .expect("Failed to spawn a thread"),
